@@ -478,6 +478,29 @@ class Check(Property):
                         v.append(f"C16 {name} of the same temperatures in kelvin {a_!r} and in degree_Rankine {b_!r}")
             except Exception as exc:  # noqa: BLE001
                 v.append(f"C16 probe variance raised {type(exc).__name__}: {exc}")
+            # item assignment: the stored number is the assigned quantity converted to the array's unit (what the scalar conversion
+            # gives), a wrongly dimensioned value is refused - zero and NaN valued quantities included
+            try:
+                r = regs.fresh("float")
+                for arr_unit, val, val_unit in (("meter", 50.0, "centimeter"), ("meter", 0.0, "second"), ("meter", 0.0, "joule"), ("meter", float("nan"), "second"),
+                                                ("meter", 0.0, "kilometer"), ("kelvin", 0.0, "degC"), ("degC", 0.0, "kelvin"), ("degF", 0.0, "degC"),
+                                                ("kelvin", 5.0, "degree_Rankine"), ("meter", 3.0, "second")):
+                    q = r.Quantity(np.array([10.0, 20.0, 30.0]), arr_unit)
+                    item = r.Quantity(val, val_unit)
+                    try:
+                        want = ("ok", item.to(arr_unit).magnitude)
+                    except Exception as exc:  # noqa: BLE001
+                        want = ("err", type(exc).__name__)
+                    try:
+                        q[0] = item
+                        got = ("ok", float(q.magnitude[0]))
+                    except Exception as exc:  # noqa: BLE001
+                        got = ("err", type(exc).__name__)
+                    same = got == want or (got[0] == want[0] == "ok" and (np.isclose(got[1], want[1], rtol=1e-12) or (np.isnan(got[1]) and np.isnan(want[1]))))
+                    if not same and not (got[0] == "err" and want[0] == "ok"):      # (a refusal where the scalar converts is not a wrong number)
+                        v.append(f"C16 array in {arr_unit}: a[0] = {val} {val_unit} stores {got}; the scalar conversion gives {want}")
+            except Exception as exc:  # noqa: BLE001
+                v.append(f"C16 probe item assignment raised {type(exc).__name__}: {exc}")
         return v
 
     def oracle(self, c):
